@@ -66,6 +66,51 @@ class RecBase(EqByMode):
         return '<%s#%d>' % (type(self).__name__, self.ix)
 
 
+def add_class(classes, eff, c, root=RecBase, prefix='K', decorate=True, namespace=None):
+    """Create class number len(classes) from its spec and append it (to ``classes`` and ``eff``)."""
+    i = len(classes)
+    idxs = sorted({b % i for b in c.get('bases', [])} if i else set(), reverse=True)
+    # drop a base that is an ancestor of another chosen base
+    keep = []
+    for b in idxs:
+        if not any(o != b and issubclass(classes[o], classes[b]) for o in idxs):
+            keep.append(b)
+    cls = None
+    while True:
+        bases = tuple(classes[b] for b in keep) or (root,)
+        ns = dict(namespace(i) if namespace else {})
+        try:
+            cls = type('%s%d' % (prefix, i), bases, ns)
+            break
+        except TypeError:
+            keep = keep[:-1]
+    if c.get('ev', 0) & EV_FALSY:
+        cls._falsy = True
+    if c.get('ev', 0) & EV_UNHASH:
+        cls._eqmode = 2
+    elif c.get('ev', 0) & EV_EQ:
+        cls._eqmode = 1
+    if decorate:
+        ev = c.get('ev', 0)
+        names, maps = [], {}
+        if ev & EV_RENAMED:
+            if ev & EV_ADD:
+                maps['on_add'] = 'added'
+            if ev & EV_REMOVE:
+                maps['on_remove'] = 'removed'
+        else:
+            if ev & EV_ADD:
+                names.append('on_add')
+            if ev & EV_REMOVE:
+                names.append('on_remove')
+        if ev & EV_PROBE:
+            names.append('probe')
+        cls = desper.event_handler(*names, **maps)(cls)
+    classes.append(cls)
+    eff.append(list(keep))
+    return cls
+
+
 def build_dag(spec, root=RecBase, prefix='K', decorate=True, namespace=None):
     """spec: list of {"bases": [earlier indices], "ev": int}.  Returns (classes, effective_bases).
 
@@ -73,46 +118,8 @@ def build_dag(spec, root=RecBase, prefix='K', decorate=True, namespace=None):
     bases come first, and if Python still rejects the linearisation the base list is shortened."""
     classes = []
     eff = []
-    for i, c in enumerate(spec):
-        idxs = sorted({b % i for b in c.get('bases', [])} if i else set(), reverse=True)
-        # drop a base that is an ancestor of another chosen base
-        keep = []
-        for b in idxs:
-            if not any(o != b and issubclass(classes[o], classes[b]) for o in idxs):
-                keep.append(b)
-        cls = None
-        while True:
-            bases = tuple(classes[b] for b in keep) or (root,)
-            ns = dict(namespace(i) if namespace else {})
-            try:
-                cls = type('%s%d' % (prefix, i), bases, ns)
-                break
-            except TypeError:
-                keep = keep[:-1]
-        if c.get('ev', 0) & EV_FALSY:
-            cls._falsy = True
-        if c.get('ev', 0) & EV_UNHASH:
-            cls._eqmode = 2
-        elif c.get('ev', 0) & EV_EQ:
-            cls._eqmode = 1
-        if decorate:
-            ev = c.get('ev', 0)
-            names, maps = [], {}
-            if ev & EV_RENAMED:
-                if ev & EV_ADD:
-                    maps['on_add'] = 'added'
-                if ev & EV_REMOVE:
-                    maps['on_remove'] = 'removed'
-            else:
-                if ev & EV_ADD:
-                    names.append('on_add')
-                if ev & EV_REMOVE:
-                    names.append('on_remove')
-            if ev & EV_PROBE:
-                names.append('probe')
-            cls = desper.event_handler(*names, **maps)(cls)
-        classes.append(cls)
-        eff.append(list(keep))
+    for c in spec:
+        add_class(classes, eff, c, root, prefix, decorate, namespace)
     return classes, eff
 
 
